@@ -10,7 +10,8 @@ ORACLE_ON_MODEL = False  # the model side of a VM case runs the *real* image: it
 AUDIT_IMPORTS = ["PortusModel.Props.C03", "PortusModel.Props.C10", "PortusModel.Props.C13", "PortusModel.Props.C14",
                  "PortusModel.Props.C01Sim", "PortusModel.Props.C01Decode"]
 THEOREMS = ["Portus.C01.run_correct_from_bytes", "Portus.C01.run_decoded", "Portus.C01.compiled_install_decodes", "Portus.C01.install_decodes",
-            "Portus.C01.exSrc_decodes", "Portus.C01.cexSrc2_inTheorem", "Portus.C01.cexSrc2_not_defBeforeUse", "Portus.C01.compiled_run_correct", "Portus.C01.check_accepts_compiled", "Portus.C01.exSrc_inTheorem",
+            "Portus.C01.exSrc_decodes", "Portus.C01.cexSrc2_inTheorem", "Portus.C01.cexSrc2_not_defBeforeUse",
+            "Portus.C01.nestedSrc_inTheorem", "Portus.C01.nestedSrc_not_stratified", "Portus.C01.nestedSrc_run", "Portus.C01.hazard_discrepancy", "Portus.C01.compiled_run_correct", "Portus.C01.check_accepts_compiled", "Portus.C01.exSrc_inTheorem",
             "Portus.Lang.Frag.compile_refines_lower", "Portus.Lang.Frag.rhoOk_of_compile", "Portus.Lang.Frag.defsFor_of_compile",
             "Portus.Lang.Frag.lowerE_correct", "Portus.Lang.Frag.lowerStmt_correct", "Portus.Lang.Frag.lowerEvents_correct",
             "Portus.Lang.Frag.invoke_correct", "Portus.Lang.Frag.lower_run_correct", "Portus.Lang.Frag.switch_sim",
@@ -31,18 +32,23 @@ ASSUMPTIONS = ["fragment hypotheses (decidable, checked per case): Stratified, L
                "(&&/|| only on truth values), distinct non-built-in declared names, at most 255 instructions",
                "one clock reading per invocation; fallback timer disabled; a single program per connection",
                "ALU is a shared parameter (libccp's arithmetic and fault rules, incl. its incomplete multiplication-overflow test)"]
-LEVEL_TEXT = ("PARTIAL. Machine-checked proof (Lean 4), C01.run_correct_from_bytes: for every program of the fragment (Stratified, "
-              "LitsOk, WritesOk, literal initial values, <= 6 locals, >= 1 event, <= 256 events/instructions) that the compiler and the "
-              "encoder accept, the libccp datapath model fed the BYTES of the install message and of a change-program message decodes "
-              "exactly the compiled program (install_decodes) and then, for EVERY sequence of measurement vectors and clock readings, "
-              "shows exactly the observations the source semantics denotes (faults and their codes, settings, which invocations report "
-              "and every reported value), as long as &&/|| meet truth values. It composes compile = reference lowering under the final "
-              "scope (compile_refines_lower), lowering ~ source semantics (lower_run_correct, switch_sim) and the decode theorem. Not "
-              "proved (decided by translation validation on generated programs; the evidence counts in-theorem / in-fragment cases): "
-              "programs outside the theorem's fragment - the oracle C01.check also decides hazard-free NESTED binds -, staged field updates, and the fidelity of the Lean libccp model to libccp's C code (validated "
-              "against the real libccp on every generated script).")
+LEVEL_TEXT = ("PARTIAL. Machine-checked proof (Lean 4), C01.run_correct_from_bytes: for every program of the fragment InOracle - pure "
+              "conditions; statements binding an expression, a conditional (if / !if) or an ewma to a name, where expressions may contain "
+              "plain binds NESTED as values as long as no operator reads, as its left operand, a variable its right operand assigns "
+              "(noHazard) - with literals that fit (LitsOk), targets that are not primitives nor __eventFlag (WritesOk), literal initial "
+              "values, <= 6 locals, >= 1 event, <= 256 events/instructions, that the compiler and the encoder accept: the libccp datapath "
+              "model fed the BYTES of the install message and of a change-program message decodes exactly the compiled program "
+              "(install_decodes) and then, for EVERY sequence of measurement vectors and clock readings, shows exactly the observations "
+              "the source semantics denotes (faults and their codes, settings, which invocations report and every reported value), as long "
+              "as &&/|| meet truth values. It composes compile = reference lowering under the final scope (compile_refines_lower), "
+              "lowering ~ source semantics (lower_run_correct, switch_sim) and the decode theorem. The theorem's fragment is exactly the "
+              "fragment the oracle C01.check decides (check_accepts_compiled needs no extra stratification hypothesis); hazard_discrepancy "
+              "is the kernel-checked reason for noHazard: (:= x (+ (:= x 1) (:= x 2))) reports 4 on the datapath where the eager "
+              "left-to-right reading says 3 (DESIGN 6.3). Not proved: programs outside the fragment (hazardous nestings, non-literal "
+              "initial values, &&/|| on non-truth values), staged field updates (C06 cross-check), and the fidelity of the Lean libccp "
+              "model to libccp's C code (validated against the real libccp on every generated script).")
 LEVEL_NOTE = "Trusts: Lean kernel for the proved lemmas; the oracle's source semantics (Lang/Sem.lean, ~200 lines, written from the documentation); sampling of programs and inputs."
-TECHNIQUE = "Lean 4 simulation proof (compile = reference lowering; lowering ~ source semantics on the libccp machine model) + translation validation of real compiler and real libccp against the Lean source semantics"
+TECHNIQUE = "Lean 4 simulation proof from install-message bytes (decode; compile = reference lowering; lowering ~ source semantics on the libccp machine model, incl. nested binds) + translation validation of real compiler and real libccp against the Lean source semantics"
 
 BOUND = [0, 1, 2**31, 2**32 - 1, 2**63, 2**64 - 1]
 
@@ -83,7 +89,7 @@ def gen(ctx):
         L = G.Layout(rng, ws=False, comments=False, spelling=rng.choice(["sym", "word", "mix"]))
         progs.append((p, G.render(p, L)))
     # fixed programs from the repository's docs/tests
-    for s in FIXED:
+    for s in FIXED + G.semantic_corner_programs():
         progs.append((None, s))
     core.build_harness()
     lines = ["CMP %d %s - -" % (i, G.hx(src)) for i, (_, src) in enumerate(progs)]
